@@ -42,7 +42,7 @@ def gen_cases(rng, tier, boost=1):
     nrand = (6000 if tier == "quick" else 120000) * boost
     for _ in range(nrand):
         w = rng.randrange(4)
-        kind = rng.choice([0, 0, 1, 1, 2, 3, 4, 4, 5, 6])
+        kind = rng.choice([0, 0, 1, 1, 2, 3, 4, 4, 5, 6, 7, 8, 9])
         n = rng.choice([0, 1, 2, 3, 5, 8, 13, 21, 40, 64])
         maxu = [255, 65535, 0x10FFFF, 0x10FFFF][w]
         units = []
@@ -79,7 +79,7 @@ def gen_cases(rng, tier, boost=1):
         pool += list(itertools.product([38, 97, 109, 112, 59, 60, 123, 48, 125], repeat=n))
     rng.shuffle(pool)
     for tup in pool[: (400 if tier == "quick" else 820) * boost]:
-        for kind in (1, 2, 3, 4, 5, 6):
+        for kind in (1, 2, 3, 4, 5, 6, 7, 8, 9):
             if kind == 5 and not ok_kind5(list(tup)):
                 continue
             cases.append("2 %d %d %s" % (rng.randrange(4), kind, fmt_list(tup)))
